@@ -600,7 +600,8 @@ def norm(expr, env=None, resolver=None, **kw):
     if expr is None:
         return ('absent',)          # e.g. a keyword argument that the call does not pass
     if isinstance(expr, str):
-        expr = ast.parse(expr, mode='eval').body
+        from . import canon
+        expr = canon._FoldConst().visit(ast.parse(expr, mode='eval')).body
     plain = Normalizer(env, resolver, **kw).n(expr)
     fn = NODE_FN.get(id(expr)) if resolver is None else None
     if fn is None or not isinstance(plain, tuple):
@@ -937,7 +938,7 @@ def parse_pattern(src, N=None):
             s = s[2:]
         s = s + '\n    pass\n'
     from . import canon
-    tree = canon._Tests().visit(ast.parse(s))
+    tree = canon._Tests().visit(canon._FoldConst().visit(ast.parse(s)))
     body = canon._block(tree.body)
     return stmt_nf(body[0], N)
 
@@ -945,4 +946,4 @@ def parse_pattern(src, N=None):
 def parse_block(src):
     """Parse statement source and bring it to the same canonical shape as loaded modules (canon.py)."""
     from . import canon
-    return canon._block(canon._Tests().visit(ast.parse(src)).body)
+    return canon._block(canon._Tests().visit(canon._FoldConst().visit(ast.parse(src))).body)
